@@ -1,6 +1,6 @@
 /-
 Model of the string primitives of `psd_tools/utils.py` (as fixed by repo commits
-312dc11 / edb2ce8) and of the layer-name path:
+53b2bbb / 5b05d7b) and of the layer-name path:
 
 * `write_fmt("B"/"I")`, `read_fmt("B"/"I")`                → `writeU8/U32`, `readU8/U32`
 * `write_padding`, `read_padding`                           → `writePadding`, `readPadding`
@@ -320,7 +320,7 @@ def readName (e : Encoding) (d : BL) (pos : Nat) (block : Option BL) : Except Er
       | .error er => .error er
       | .ok (n, _) => .ok ({ legacy := leg, luni := some n }, p)
 
-/-! ### The string codec before repo commit 312dc11 (kept as the record of the defect) -/
+/-! ### The string codec before repo commit 53b2bbb (kept as the record of the defect) -/
 
 /-- `array.array("H", [ord(x) for x in value])`: one 16-bit unit per character,
 `OverflowError` above U+FFFF. -/
